@@ -29,7 +29,9 @@ func writeManifest() {
 	}
 	var ids []string
 	for id := range properties {
-		ids = append(ids, id)
+		if len(id) == 3 && id[0] == 'C' {
+			ids = append(ids, id)
+		}
 	}
 	sort.Strings(ids)
 	var checks []chk
